@@ -52,22 +52,25 @@ def suite_with_patch(patch):
 
 
 def detect(patch, props=None):
-    st = sh(["git", "-C", "/repo", "status", "--porcelain"])
-    assert not st.stdout.strip(), "/repo not clean"
+    """Run the quick checks against a scratch copy of /repo/beyond with the patch applied (never /repo itself)."""
     man = json.load(open("/verif/MANIFEST.json"))
     props = props or [c["property_id"] for c in man["checks"]]
-    subprocess.check_call(["git", "-C", "/repo", "apply", patch])
+    d = tempfile.mkdtemp(prefix="bvseed_")
     res = {}
     try:
-        tmp_ev = tempfile.mkdtemp(prefix="bvev_")
-        env = dict(os.environ, BVSTATIC_EVIDENCE=tmp_ev)
-        for p in props:
+        shutil.copytree("/repo/beyond", os.path.join(d, "beyond"))
+        subprocess.check_call(["git", "apply", os.path.abspath(patch)], cwd=d)
+        env = dict(os.environ, BVSTATIC_REPO=d, BVSTATIC_EVIDENCE=os.path.join(d, "_ev"))
+
+        def one(p):
             r = sh([PY, "-B", "-m", "bvstatic", p, "--tier", "quick"], cwd="/verif", env=env)
             fails = [l.strip()[:230] for l in r.stdout.splitlines() if l.strip().startswith("FAIL") or "ANALYSIS-ERROR" in l]
-            res[p] = (r.returncode, fails)
-        shutil.rmtree(tmp_ev, ignore_errors=True)
+            return p, (r.returncode, fails)
+        from concurrent.futures import ThreadPoolExecutor
+        with ThreadPoolExecutor(6) as ex:
+            res = dict(ex.map(one, props))
     finally:
-        subprocess.check_call(["git", "-C", "/repo", "checkout", "--", "."])
+        shutil.rmtree(d, ignore_errors=True)
     return res
 
 
